@@ -4,6 +4,7 @@ import (
 	"fmt"
 	"go.pennock.tech/tabular"
 	"go.pennock.tech/tabular/texttable"
+	"strings"
 	"time"
 
 	"go.pennock.tech/tabular/properties/align"
@@ -111,8 +112,11 @@ func runC04(x *X) {
 		x.Nontrivial(dc.Name + tg.String())
 		compareTextTable(x, "C04", tg, dc, []string{"twin_texts", "decoration:" + dc.Name})
 	})
-	texts := []string{"X", "abc", "\x1b[1mX\x1b[0m", "ab\ncde", ""}
-	x.Explore("declared-size", ExploreOpts{ShardDepth: 2, Bound: "5 texts x 6 declared widths x 6 declared heights x 3 positions x 3 alignments x decorations"}, func(c *Chooser) {
+	// the last three: many bytes per displayed cell (stacked colour sequences around one letter, ten combining marks on
+	// one base, a long OSC hyperlink) - an item that declares width 1 for them is exactly what declared widths are for
+	texts := []string{"X", "abc", "\x1b[1mX\x1b[0m", "ab\ncde", "",
+		"\x1b[38;5;196m\x1b[48;5;21m\x1b[1m\x1b[4mX\x1b[0m", "e" + strings.Repeat("\u0301", 10), "\x1b]8;;https://example.org/a/rather/long/target/address\x1b\\L\x1b]8;;\x1b\\"}
+	x.Explore("declared-size", ExploreOpts{ShardDepth: 2, Bound: "8 texts (three with 10-70 bytes per displayed cell) x 8 declared widths x 6 declared heights x 3 positions x 3 alignments x decorations"}, func(c *Chooser) {
 		text := texts[c.Choose(len(texts))]
 		cell := TCell{Text: text}
 		nl := len(cell.lines())
